@@ -169,6 +169,9 @@ pub struct Prog {
     pub observed: bool,
     /// alphabet of top-level writes
     pub outside: Vec<Op>,
+    /// T's node carries `Cutoff::Never`: every write, also of an equal value and also a deferred one, must make
+    /// the readers needed by a live observer run again at the next stabilise (C06; added after seed C06-c)
+    pub never: bool,
 }
 
 #[derive(Clone, Debug, PartialEq)]
@@ -224,6 +227,8 @@ struct Model {
     observed: bool,
     /// the writer closure has been freed (site Dropped)
     writer_freed: bool,
+    /// (`never` programs) T was written since the reader `low` last ran
+    written_since_low_ran: bool,
 }
 
 pub struct VarsWorld {
@@ -261,6 +266,9 @@ impl VarsWorld {
         let state = IncrState::new();
         let log = self.log.clone();
         let t = state.var(0i32);
+        if prog.never {
+            t.watch().set_cutoff(incremental::Cutoff::Never);
+        }
         let g = state.var(0i32);
         let reader = |who: &'static str, log: &Log| {
             let log = log.clone();
@@ -481,6 +489,25 @@ impl VarsWorld {
             }
         }
 
+        // ---- C06 on a variable with Cutoff::Never: it was written since `low` last ran and `low` is needed by a live
+        // observer, so `low` must run in this stabilise, whatever was written
+        if self.prog.never {
+            let low_ran = log.iter().any(|e| matches!(e, Ev::Reader { who: "low", .. }));
+            if self.model.observed && self.model.written_since_low_ran && !low_ran {
+                if check {
+                    vs.push(Violation::new(
+                        "C06",
+                        "C06.missed",
+                        format!("var-never:{site}"),
+                        format!("the variable has Cutoff::Never and was written since its observed reader last ran, yet the reader was not re-invoked in this stabilise (log {log:?})"),
+                    ));
+                }
+            }
+            if low_ran || self.model.observed {
+                self.model.written_since_low_ran = false;
+            }
+        }
+
         // ---- compose the writers of this round in observed program order
         let mut cur = pre_eff;
         let mut wrote_node = false;
@@ -539,6 +566,9 @@ impl VarsWorld {
             }
         }
         let wrote = wrote_node || wrote_handler;
+        if wrote {
+            self.model.written_since_low_ran = true;
+        }
         if writers_seen > 1 {
             self.note("several_writer_invocations_in_one_round");
         }
@@ -650,6 +680,7 @@ impl VarsWorld {
                     vs.push(v("C08.immediate", format!("return-of-{}", op.kind()), format!("{} at top level returned {got:?}, expected {exp:?} (logical value before: {})", op.name(), self.model.logical)));
                 }
                 self.model.logical = n;
+                self.model.written_since_low_ran = true;
                 self.note("outside_write");
                 self.probe_get(op.kind(), "C08.immediate", check, vs);
                 if check {
@@ -756,6 +787,7 @@ impl World for VarsWorld {
                 s: 0,
                 observed: prog.observed,
                 writer_freed: false,
+                written_since_low_ran: false,
             },
             dead: false,
             obs_hash: 0,
@@ -844,6 +876,7 @@ impl World for VarsWorld {
             "script": p.script.iter().map(|o| o.name()).collect::<Vec<_>>(),
             "observed": p.observed,
             "outside": p.outside.iter().map(|o| o.name()).collect::<Vec<_>>(),
+            "never": p.never,
         })
     }
 
@@ -854,6 +887,7 @@ impl World for VarsWorld {
             script: ops("script")?,
             observed: j["observed"].as_bool()?,
             outside: ops("outside")?,
+            never: j["never"].as_bool().unwrap_or(false),
         })
     }
 
@@ -944,8 +978,22 @@ pub fn family(name: &str) -> Vec<Prog> {
                     script: vec![],
                     observed: *o,
                     outside: alphabet.clone(),
+                    never: false,
                 })
                 .collect();
+        }
+        // T carries Cutoff::Never; scripts of length <= 2 over {set 5, update, replace 6}, three writer sites
+        "c08/never" => {
+            let mut out = vec![];
+            for site in [Site::MapFn, Site::Handler, Site::Outside] {
+                let scr: Vec<Vec<Op>> = if site == Site::Outside { vec![vec![]] } else { scripts(&[Op::Set(5), Op::Update, Op::Replace(6)], 2) };
+                for s in scr {
+                    for observed in [true, false] {
+                        out.push(Prog { site, script: s.clone(), observed, outside: vec![Op::Set(5), Op::Replace(6)], never: true });
+                    }
+                }
+            }
+            return out;
         }
         "c08/node" => vec![Site::MapFn, Site::BindFn],
         "c08/handler" => vec![Site::Handler, Site::MapAndHandler],
@@ -962,6 +1010,7 @@ pub fn family(name: &str) -> Vec<Prog> {
                     script: s.clone(),
                     observed,
                     outside: if site == Site::Dropped { vec![] } else { outside.clone() },
+                    never: false,
                 });
             }
         }
